@@ -144,8 +144,14 @@ func (s asciiSetStringScanner) index(input string) int {
 	return -1
 }
 
+// An invalid input byte decodes to utf8.RuneError, so a literal that contains
+// U+FFFD can match text whose raw bytes do not contain its UTF-8 encoding.
+func hasRuneError(s string) bool {
+	return strings.ContainsRune(s, utf8.RuneError)
+}
+
 func stringIndexPrefixFilter(prefix string, ignoreCase bool, minRequiredLength int) StringPrefixFilter {
-	if prefix == "" {
+	if prefix == "" || hasRuneError(prefix) {
 		return nil
 	}
 	if ignoreCase && !isASCIIString(prefix) {
@@ -173,6 +179,11 @@ func stringIndexPrefixFilter(prefix string, ignoreCase bool, minRequiredLength i
 func stringIndexPrefixesFilter(prefixes []string, ignoreCase bool, minRequiredLength int) StringPrefixFilter {
 	if len(prefixes) == 0 {
 		return nil
+	}
+	for _, prefix := range prefixes {
+		if hasRuneError(prefix) {
+			return nil
+		}
 	}
 	if ignoreCase {
 		for _, prefix := range prefixes {
@@ -322,7 +333,7 @@ func stringFixedDistanceCharFilter(ch rune, distance, minRequiredLength int) Str
 }
 
 func stringFixedDistanceStringFilter(literal string, distance, minRequiredLength int) StringPrefixFilter {
-	if literal == "" || distance < 0 || len(literal) > maxStringFilterLiteralLen {
+	if literal == "" || distance < 0 || len(literal) > maxStringFilterLiteralLen || hasRuneError(literal) {
 		return nil
 	}
 
@@ -356,6 +367,9 @@ func stringLiteralAfterLoopFilter(literal *syntax.LiteralAfterLoop, minRequiredL
 		return nil
 	}
 	if literal.StringIgnoreCase && (literal.String == "" || !isASCIIString(literal.String)) {
+		return nil
+	}
+	if hasRuneError(literal.String) {
 		return nil
 	}
 
